@@ -59,6 +59,7 @@ class C02(Check):
         "buffer size via write_patches, workers 2/3/4/8 with seeded delays before each worker's queue put, progress) "
         "settings whose per-patch multisets must be identical. non-trivial = >= 2 chunks or >= 2 patches and all records "
         "matched; distinct = case parameters"
+        ' Further classes: FITS tables in extension 2 behind another table, irregular Parquet row groups, right ascensions in other conventions, integer/half-float/unsigned columns, a zero-weight record, 70 001-row inputs, caches below patch-like directory names, non-default row labels, a source that pauses 17 s between two chunks.'
     )
     assumptions = [
         "objects whose two nearest centres differ by < 1e-9 rad may go to either patch",
